@@ -5,6 +5,7 @@ This module contains utility classes and functions used across the code generati
 
 import base64
 import dataclasses
+import enum
 import keyword
 import logging
 import re
@@ -436,6 +437,10 @@ class DataclassSerializer:
             Serialised object with all dataclasses converted to dicts
         """
         from .cattrs_converter import unstructure_to_dict
+
+        # Enum members serialise to their value (str/int mix-in enums would otherwise pass as primitives)
+        if isinstance(obj, enum.Enum):
+            return obj.value
 
         # Handle primitives early (no tracking needed)
         if obj is None or isinstance(obj, (str, int, float, bool)):
